@@ -61,7 +61,7 @@ func prepScene(d *Driver, name string) {
 		// u1 and u2 hold claimable Eden (as masterchef / estaking rewards would credit it)
 		ctx := c.AdminCtx()
 		for _, n := range []string{"u1", "u2"} {
-			coins := sdk.NewCoins(sdk.NewInt64Coin("ueden", 2_000_020))
+			coins := sdk.NewCoins(sdk.NewInt64Coin("ueden", 2_000_020), sdk.NewInt64Coin("uedenb", 500_000))
 			if err := c.App.CommitmentKeeper.MintCoins(ctx, "masterchef", coins); err != nil {
 				panic(err)
 			}
